@@ -826,7 +826,7 @@ func genSign(g *core.Gen) {
 		genSignClasses(g)
 	}()
 	definedHT := []txscript.SigHashType{1, 2, 3, 0x81, 0x82, 0x83}
-	for k := 0; k < g.N(448, 6160); k++ {
+	for k := 0; k < g.N(336, 6160); k++ {
 		kind := signKinds[k%len(signKinds)]
 		if k == 7 {
 			kind = "multisig-15" // 15-of-15, fifteen rounds, fifteen hash types
